@@ -1,0 +1,15 @@
+//go:build verif
+// +build verif
+
+// Machine-checked contracts for package luastrings (comment-only; read by /verif/govc).
+
+package luastrings
+
+// Position normalisation of the string library (manual §6.4): a negative
+// position counts from the end, -1 being the last byte.
+//@ func StringNormPos
+//@   prop C19
+//@   arith int
+//@   modifies nothing
+//@   ensures p >= 0 ==> result == p
+//@   ensures p < 0 ==> result == len(s) + 1 + p
